@@ -43,9 +43,13 @@ def money_literal(rng, canon, code, sep, neg):
     return text, 1
 
 
-def pct_literal(rng, canon, sep, neg):
+def pct_literal(rng, canon, sep, neg, detached_ok=False):
     lit = render_literal(canon, sep, rng.random() < 0.4)         # a percentage of 1000 or more may be written with grouping
     s = ('-' if neg else '') + lit
+    if neg and detached_ok and rng.random() < 0.5:
+        # behind the operator of 'X + p%' / 'X - p%': the minus in front of the percent sign (the usual Turkish spelling) or standing
+        # apart from the literal (inside the word phrases a detached minus is an operator, not part of the percentage)
+        return rng.choice(['-%' + lit, '- ' + lit + '%', '- %' + lit])
     return (s + '%') if rng.random() < 0.6 else ('%' + s)
 
 
@@ -84,8 +88,21 @@ def run_shard(ctx):
                 xt, mult = ('-' if xneg else '') + render_literal(xs, sep, rng.random() < 0.2), 1
             X = Fraction(xs) * mult * (-1 if xneg else 1)
             p = Fraction(ps) * (-1 if pneg else 1)
-            pt = pct_literal(rng, ps, sep, pneg)
             form = rng.choice(forms)
+            pt = pct_literal(rng, ps, sep, pneg)
+            pt_detached = pct_literal(rng, ps, sep, pneg, detached_ok=True)
+            if rng.random() < 0.02 and 'of' in forms:
+                # one phrase many times on a line: every one of them is rewritten
+                n = rng.choice([2, 8, 15, 16, 17, 20, 24, 30])
+                p_, x_ = rng.choice([5, 10, 25, 50]), rng.choice([40, 80, 200, 1000])
+                kind_ = rng.choice(['of', 'off', 'on'])
+                one = {'of': Fraction(x_ * p_, 100), 'off': Fraction(x_ * (100 - p_), 100), 'on': Fraction(x_ * (100 + p_), 100)}[kind_]
+                pre = '$' if rng.random() < 0.3 else ''
+                text = ' + '.join(['%d%% %s %s%d' % (p_, kind_, pre, x_)] * n)
+                items.append((lang, text))
+                meta.append((text, 'chain-' + kind_, 'money' if pre else 'number', 'usd' if pre else None, one * n, abs(one * n)))
+                continue
+
             # operands may also come from variables bound on earlier lines
             prelude = ''
             via = 'literal'
@@ -104,6 +121,8 @@ def run_shard(ctx):
             else:
                 via_note = None
                 glue = '%s %s %s'
+            if form in ('plus', 'minus') and via in ('literal', 'amount-variable') and glue == '%s %s %s':
+                pt = pt_detached
             if form == 'plus':
                 text = glue % (xt, '+', pt)
                 want, scale = X * (1 + p / 100), abs(X) + abs(X * p / 100)
